@@ -126,6 +126,10 @@ func (s *Sorter) Reset() {
 		s.chunks = s.chunks[:0]
 	}
 	if s.cleanups != nil {
+		// the spill files of the previous run are deleted here: once forgotten, Close could not remove them
+		for _, f := range s.cleanups {
+			f()
+		}
 		s.cleanups = s.cleanups[:0]
 	}
 }
